@@ -65,6 +65,13 @@ func (f *Defvar) Call(s *slip.Scope, args slip.List, depth int) (result slip.Obj
 	if v, has := pkg.Get(vname); has && v != slip.Unbound {
 		return slip.Symbol(vname)
 	}
+	if private {
+		// pkg::name reaches an unexported variable as well, a bound one is
+		// left alone.
+		if vv := pkg.GetVarVal(vname); vv != nil && vv.Value() != slip.Unbound {
+			return slip.Symbol(vname)
+		}
+	}
 	var (
 		iv  slip.Object = slip.Unbound
 		doc slip.String
